@@ -1006,6 +1006,16 @@ func (c *Client) stepUpdateTable(op adapt.Op, got adapt.Outcome) []Diff {
 			delete(names, ch.Delete)
 		}
 	}
+	if op.NoDefs {
+		// an index created without declaring its key attributes in the same request: DynamoDB insists on the
+		// declaration, minidyn accepts it when an earlier request declared them. Unsure: both answers are
+		// admitted (a refusal must be a validation error and leaves no trace); the SDK adapters must agree (C17)
+		for _, ch := range changes {
+			if ch.Create != nil && got.Class != adapt.ClsOK {
+				return wantClass(op, got, adapt.ClsValidation)
+			}
+		}
+	}
 	if d := wantClass(op, got, adapt.ClsOK); d != nil {
 		return d
 	}
